@@ -427,17 +427,19 @@ Proof.
       destruct (IH acc acc1 H) as [I1 [I2 [I3 I4]]]. rewrite I1, I2, I3, I4. repeat split.
 Qed.
 
-(* -- time: every call is cut off at T *)
-Lemma call_time_le T c : (call_time (Rp:=Rp) T c <= T)%N.
-Proof. unfold call_time. lia. Qed.
+(* -- time: every call that got its request out is cut off at T *)
+Lemma call_time_le T c : c_in_write c = false -> (call_time (Rp:=Rp) T c <= T)%N.
+Proof. intros H. unfold call_time. rewrite H. lia. Qed.
 
-Lemma relay_time T rq h ps : forall acc,
+Lemma relay_time T rq h ps : (forall p, In p ps -> c_in_write (h p) = false) -> forall acc,
   (ro_time (relay T rq h ps acc) <= N.of_nat (length (ro_invoked (relay T rq h ps acc))) * T)%N /\
   (length (ro_invoked (relay T rq h ps acc)) <= length ps)%nat.
 Proof.
-  induction ps as [|p r IH]; intros acc; [cbn; split; lia|].
+  induction ps as [|p r IH]; intros Hw acc; [cbn; split; lia|].
+  assert (Hw' : forall q, In q r -> c_in_write (h q) = false) by (intros q Hq; apply Hw; right; exact Hq).
+  specialize (IH Hw').
   destruct (callable (ev_of rq) p) eqn:Hc.
-  - rewrite relay_call by exact Hc. pose proof (call_time_le T (h p)) as Hd.
+  - rewrite relay_call by exact Hc. pose proof (call_time_le T (h p) (Hw p (or_introl eq_refl))) as Hd.
     destruct (oc T h p) as [rp|m|].
     + destruct (apply acc p rp) as [acc'|e].
       * destruct (IH acc') as [I1 I2]. cbn [cons_invoked ro_invoked ro_time length]. split; [|lia].
@@ -926,14 +928,42 @@ Proof. vm_compute. reflexivity. Qed.
 
 (* a call that lasts T or longer, or that fails with one of the fault classes, is Fatal *)
 Lemma failing_call_is_fatal (Rp : Type) (T : N) (c : call Rp) :
-  (T <= c_dur c)%N \/ (exists cls msg, c_res c = Failed cls msg /\ In cls fault_error_classes) ->
+  (c_in_write c = false /\ (T <= c_dur c)%N) \/
+  (exists cls msg, c_res c = Failed cls msg /\ In cls fault_error_classes) ->
   classify (effective T c) = Fatal.
 Proof.
-  intros H. unfold effective. destruct (N.leb T (c_dur c)) eqn:E.
-  - apply fatal_class_is_dropped. exact deadline_is_fatal.
-  - destruct H as [H|[cls [msg [Hr Hc]]]].
-    + apply N.leb_le in H. congruence.
-    + rewrite Hr. apply fatal_class_is_dropped. apply fault_classes_all_fatal. exact Hc.
+  intros H. unfold effective. destruct (c_in_write c) eqn:W.
+  - destruct H as [[H _]|[cls [msg [Hr Hc]]]]; [discriminate|].
+    rewrite Hr. apply fatal_class_is_dropped. apply fault_classes_all_fatal. exact Hc.
+  - destruct (N.leb T (c_dur c)) eqn:E.
+    + apply fatal_class_is_dropped. exact deadline_is_fatal.
+    + destruct H as [[_ H]|[cls [msg [Hr Hc]]]].
+      * apply N.leb_le in H. congruence.
+      * rewrite Hr. apply fatal_class_is_dropped. apply fault_classes_all_fatal. exact Hc.
+Qed.
+
+(* a call stuck in the write of its request is not cut at T: witness with three plugins, the
+   second one stalled for 100000 time units under T = 100 (the request still ends with the
+   others' contributions once the connection goes down) *)
+Definition stall_witness_plugins : list plugin :=
+  [ {| p_id := 1; p_idx := "10"; p_name := "A"; p_events := 8191; p_closed := false |};
+    {| p_id := 2; p_idx := "20"; p_name := "B"; p_events := 8191; p_closed := false |};
+    {| p_id := 3; p_idx := "30"; p_name := "C"; p_events := 8191; p_closed := false |} ].
+Definition stall_witness_handler (p : plugin) : call string :=
+  if N.eqb (p_id p) 2
+  then {| c_res := Failed "ttrpc.ErrClosed" "ttrpc: closed"; c_dur := 100000; c_in_write := true |}
+  else {| c_res := Reply (p_name p); c_dur := 1; c_in_write := false |}.
+
+Lemma time_bound_refuted_for_stalled_reader :
+  exists (T : N) (h : plugin -> call string) (ps : list plugin),
+    let o := snd (run_request (fun rq : N * Z => snd rq) (fun _ => @nil string)
+                    (fun acc _ tok => inl (acc ++ [tok])) (fun _ acc => acc) T (1%N, 4%Z) h ps) in
+    (N.of_nat (length ps) * T < o_time o)%N /\ o_result o = inl ["A"; "C"] /\
+    (exists p, In p ps /\ c_in_write (h p) = true).
+Proof.
+  exists 100%N, stall_witness_handler, stall_witness_plugins. cbn zeta. split; [vm_compute; reflexivity|].
+  split; [vm_compute; reflexivity|].
+  eexists. split; [right; left; reflexivity|reflexivity].
 Qed.
 
 (* ================================================================== *)
@@ -1176,7 +1206,8 @@ Qed.
 (* C07: plugins that hang past the time-out or whose calls fail with a fault class are absent *)
 Lemma failing_is_absent T rq h (I : plugin -> bool) ps :
   (forall p, In p ps -> I p = true ->
-     (T <= c_dur (h p))%N \/ (exists cls msg, c_res (h p) = Failed cls msg /\ In cls fault_error_classes)) ->
+     (c_in_write (h p) = false /\ (T <= c_dur (h p))%N) \/
+     (exists cls msg, c_res (h p) = Failed cls msg /\ In cls fault_error_classes)) ->
   let o := snd (run_request T rq h ps) in
   let o' := snd (run_request T rq h (filter (fun p => negb (I p)) ps)) in
   o_result o = o_result o' /\ filter (fun p => negb (I p)) (o_invoked o) = o_invoked o'.
@@ -1220,11 +1251,12 @@ Qed.
 
 (* C07: a request takes at most (number of plugins called) x T <= (number of plugins) x T *)
 Lemma time_bound T rq h ps :
+  (forall p, In p ps -> c_in_write (h p) = false) ->
   let o := snd (run_request T rq h ps) in
   (o_time o <= N.of_nat (length (o_invoked o)) * T)%N /\ (o_time o <= N.of_nat (length ps) * T)%N.
 Proof.
-  cbn zeta. unfold Dispatch.run_request. cbn [snd o_time o_invoked].
-  destruct (relay_time _ _ _ ev_of apply T rq h ps (init rq)) as [H1 H2]. split; [exact H1|].
+  intros Hw. cbn zeta. unfold Dispatch.run_request. cbn [snd o_time o_invoked].
+  destruct (relay_time _ _ _ ev_of apply T rq h ps Hw (init rq)) as [H1 H2]. split; [exact H1|].
   eapply N.le_trans; [exact H1|]. apply N.mul_le_mono_r. lia.
 Qed.
 
